@@ -192,7 +192,10 @@ func (k *Keeper) IterateUndelegationsByStakerAndAsset(
 // end of the block with the provided height.
 func (k *Keeper) GetPendingUndelegationRecKeys(ctx sdk.Context, height uint64) (recordKeyList []string, err error) {
 	store := prefix.NewStore(ctx.KVStore(k.storeKey), types.KeyPrefixPendingUndelegations)
-	iterator := sdk.KVStorePrefixIterator(store, []byte(hexutil.EncodeUint64(height)))
+	// the keys are "<hex height>/<hex nonce>": include the separator, otherwise the records of
+	// every later height whose hex encoding starts with this height's (0x1 -> 0x10..0x1f, ...)
+	// would be returned too and released early.
+	iterator := sdk.KVStorePrefixIterator(store, []byte(hexutil.EncodeUint64(height)+"/"))
 	defer iterator.Close()
 
 	ret := make([]string, 0)
